@@ -128,7 +128,7 @@ func c06(c *core.Ctx) {
 				if loaded == nil {
 					return
 				}
-				if fn.Signature.Recv() != nil && core.NamedOf(fn.Signature.Recv().Type()) == "frame" {
+				if core.RecvName(fn) == "frame" {
 					return // the frame's own kind()/String() methods
 				}
 				key := core.FuncName(fn) + ":use(frame.data)"
